@@ -7,7 +7,7 @@ from . import result as R
 PROPERTY = "C20"
 META = {
     "bounds": "attribute algebra: one generic bin, all statistics symbolic (XX,YY>=0 incl. 0, any complex XY, S2,S12,fs>0, f>=0, n>=1); interpolation: 3 bins with symbolic strictly increasing f and symbolic values, symbolic query; export: nf<=3 with every pattern of per-bin segment counts K in {1,2,3} (all-equal included) and single-bin results; copy/pickle protocol: every subset of missing instance attributes x 14 probe names, recursion bound 40",
-    "outside": ["pandas / pickle / copy internals (contract: DataFrame needs 1-D columns of equal length; copy and pickle create a bare instance, probe dunder names, then restore __dict__)", "np.unwrap beyond 'first element unchanged'"],
+    "outside": ["pandas / pickle / copy internals (contract: DataFrame needs 1-D columns of equal length; copy and pickle create a bare instance, probe dunder names, then restore __dict__)", "np.unwrap is encoded by its documented algorithm (1-D); atan2 by range and quadrant facts only"],
     "stubs": ["np.interp -> clamp + piecewise linear (documented)", "log10, atan2 -> uninterpreted functions (same application on both sides)", "pd.DataFrame -> recorder of the column dict"],
     "assumptions": [],
 }
@@ -73,6 +73,28 @@ def ob_cross_phase(W):
     W.goal("cf_deg*pi=cf_rad*180", W.eq(e(r.cf_deg) * pi, e(r.cf_rad) * 180))
     W.goal("unwrapped[0]", W.eq(e(r.cf_rad_unwrapped), e(r.cf_rad)))
     W.goal("deg_unwrapped", W.eq(e(r.cf_deg_unwrapped) * pi, e(r.cf_rad_unwrapped) * 180))
+
+
+def ob_phase_unwrap(W, nb):
+    """several bins: the unwrapped degree phase is the unwrapped radian phase times 180/pi at every bin (np.unwrap by its documented
+    algorithm; atan2 uninterpreted with its range and quadrant facts, so the solver can place a +-180 degree crossing between bins)"""
+    bins = [R.bin_inputs(W, str(j), cross=True, pos=True, psd_cs=False) for j in range(nb)]
+    fs = W.real("fs")
+    if W.sym:
+        W.assume(fs > 0)
+    elif not fs > 0:
+        return
+    r = R.mk(W, bins, True, fs)
+    ru, du, rr = r.cf_rad_unwrapped, r.cf_deg_unwrapped, r.cf_rad
+    R.add_fun_facts(W)
+    pi = R.PI if W.sym else float(R.PI)
+    e = R.el
+    W.goal("unwrapped[0]=wrapped[0]", W.eq(e(ru, 0), e(rr, 0)))
+    for i in range(nb):
+        W.goal("deg_unwrapped[%d]*pi = rad_unwrapped[%d]*180" % (i, i), W.eq(e(du, i) * pi, e(ru, i) * 180))
+    for i in range(1, nb):
+        d = e(ru, i) - e(ru, i - 1)
+        W.goal("unwrapped phase steps by at most pi [%d]" % i, W.And(W.le(d, pi), W.ge(d, -pi)))
 
 
 def ob_auto_views(W):
@@ -238,6 +260,8 @@ def ob_roundtrip(W):
 def obligations(tier):
     to = 30 if tier == "quick" else 120
     obs = [{"name": n, "fn": n, "params": {}, "timeout": to} for n in ("ob_cross_views", "ob_cross_phase", "ob_auto_views", "ob_unknown_names", "ob_roundtrip")]
+    for nb in ((2, 3) if tier == "quick" else (2, 3, 4)):
+        obs.append({"name": "ob_phase_unwrap/bins%d" % nb, "fn": "ob_phase_unwrap", "params": {"nb": nb}, "timeout": to, "weight": 4 * nb})
     meas = [("Gxy", True), ("coh", True), ("asd", False)] if tier == "quick" else [("Gxy", True), ("coh", True), ("Hxy", True), ("Gxx", True), ("asd", False), ("psd", False), ("cs", True)]
     for which, cross in meas:
         obs.append({"name": "ob_measurement/%s" % which, "fn": "ob_measurement", "params": {"which": which, "cross": cross}, "timeout": to, "fork": True, "max_paths": 200})
